@@ -36,14 +36,15 @@ let run (st : stream) (b : Buffer.t) : unit =
           (match improve_depots nw s1 None with
            | Ok s2 ->
              let state = ref s2 in
+             let last = ref None in
              let stop = ref false in
              List.iteri (fun d pick ->
                if not !stop then begin
                  Opsmodel.dump_schedule nw !state "base" b;
-                 match neighbors nw !state with
+                 match neighbors_from nw !state !last with
                  | Ok cs ->
                    let n = List.length cs in
-                   pr "NEIGH %d ncand=%d\n" d n;
+                   pr "NEIGH %d last=%s ncand=%d\n" d (match !last with Some p -> "px:" ^ vid p | None -> "-") n;
                    pr "BASEUNCHANGED 1\n";
                    if n = 0 then stop := true else begin
                      List.iter (fun (dd, i) ->
@@ -51,7 +52,9 @@ let run (st : stream) (b : Buffer.t) : unit =
                          pr "CAND %d %d\n" d i;
                          Opsmodel.dump_schedule nw (snd (List.nth cs i)) "cand" b
                        end) dumped;
-                     state := snd (List.nth cs (pick mod n))
+                     let (c, s') = List.nth cs (pick mod n) in
+                     state := s';
+                     last := (match c with CExch (_, p, _) -> Some p | _ -> None)
                    end
                  | _ -> pr "NEIGH %d PANIC\n" d; stop := true
                end) picks
